@@ -6,7 +6,8 @@ offset (fillers up to length 3 / 4), and over unknown type codes {0, reserved, 1
 sizes {0,1,15,16..44,48,4096} x declared header size/version {16/1, 32/1, and for three type codes (thorough: all)
 40/2, 0/0, 17/1, ffff/ffff} x position x (content containing the signature bytes or not) x split offset.
 The real File::uncompressedFile2ReadWriteQueue() is driven on a File whose in-memory stream the harness filled;
-a sample runs as complete File sessions under the scheduler."""
+a sample runs as complete File sessions under the scheduler, as do unknown objects that straddle containers of {7,16,24,64}
+bytes with the next container arriving on demand (stream buffer 1) or ahead of the decoder (default buffer)."""
 import time
 
 import driver
